@@ -29,6 +29,7 @@ package limit
 //@   ensures[C04,C06] fields: result.limit == initialLimit && result.backOffRatio == backOffRatio && result.increaseBy == max(1, increaseBy) && len(result.listeners) == 0
 
 //@ func (*AIMDLimit).EstimatedLimit
+//@   refines[C04] core.Limit.EstimatedLimit with est = l.limit
 //@   ensures[C04,C16] value: result == l.limit
 //@   assigns nothing
 //@   owns[C17]
@@ -47,9 +48,10 @@ package limit
 //@   owns[C17]
 
 //@ func (*AIMDLimit).OnSample
+//@   refines[C04] core.Limit.OnSample with est = l.limit
 //@   maintains[C04,C06,C07] l
 //@   requires in: 0 <= rtt && 0 <= inFlight
-//@   requires big: l.limit < 1<<53 && l.increaseBy < 1<<53
+//@   requires big_no_overflow: l.limit < 1<<53 && l.increaseBy < 1<<53
 //@   ensures[C06] drop_rule: didDrop ==> l.limit == max(1, min(old(l.limit)-1, int(floor(float64(old(l.limit))*l.backOffRatio))))
 //@   ensures[C06] drop_never_raises: didDrop ==> l.limit <= old(l.limit) && (old(l.limit) > 1 ==> l.limit < old(l.limit))
 //@   ensures[C07] gate: !didDrop && inFlight < old(l.limit) ==> l.limit == old(l.limit)
@@ -135,6 +137,7 @@ package limit
 //@   inline
 
 //@ func (*VegasLimit).EstimatedLimit
+//@   refines[C04] core.Limit.EstimatedLimit with est = int(l.estimatedLimit)
 //@   maintains[C04] l
 //@   ensures[C04,C16] value: result == int(l.estimatedLimit) && result >= 1
 //@   assigns nothing
@@ -167,7 +170,8 @@ package limit
 //@ func (*VegasLimit).updateEstimatedLimit
 //@   relational[C08] rtt_monotone varies rtt: r1(rtt) < r2(rtt) ==> r2(l.estimatedLimit) <= r1(l.estimatedLimit)
 //@   requires locked: held(l.mu)
-//@   requires sample: 0 < rtt && rtt <= 4611686018427387904 && 0 <= inFlight && inFlight < 1<<31
+//@   requires sample: 0 < rtt && 0 <= inFlight
+//@   requires magnitude_no_overflow: rtt <= 4611686018427387904 && inFlight < 1<<31
 //@   requires based: 0.0 < vegasBase(l) && vegasBase(l) <= float64(rtt)
 //@   maintains[C04,C06,C07,C08] l
 //@   ensures[C06] drop_never_raises: didDrop ==> l.estimatedLimit <= old(l.estimatedLimit)
@@ -181,7 +185,9 @@ package limit
 //@   owns[C17]
 
 //@ func (*VegasLimit).OnSample
-//@   requires sample: 0 <= rtt && rtt <= 4611686018427387904 && 0 <= inFlight && inFlight < 1<<31
+//@   refines[C04] core.Limit.OnSample with est = int(l.estimatedLimit)
+//@   requires sample: 0 <= rtt && 0 <= inFlight
+//@   requires magnitude_no_overflow: rtt <= 4611686018427387904 && inFlight < 1<<31
 //@   requires counter_no_overflow: l.probeCount < 1<<62
 //@   maintains[C04,C06,C07,C08,C15] l
 //@   ensures[C06] drop_never_raises: didDrop ==> l.estimatedLimit <= old(l.estimatedLimit)
@@ -241,6 +247,7 @@ package limit
 //@   assigns nothing
 
 //@ func (*GradientLimit).EstimatedLimit
+//@   refines[C04] core.Limit.EstimatedLimit with est = int(l.estimatedLimit)
 //@   maintains[C04] l
 //@   ensures[C04,C16] value: result == int(l.estimatedLimit) && result >= 1 && result >= l.minLimit
 //@   assigns nothing
@@ -274,8 +281,10 @@ package limit
 //@ define gradProbed(l *limit.GradientLimit, counterBefore int) bool = l.probeInterval != -1 && counterBefore - 1 <= 0
 
 //@ func (*GradientLimit).OnSample
+//@   refines[C04] core.Limit.OnSample with est = int(l.estimatedLimit)
 //@   relational[C08] rtt_monotone varies rtt: r1(rtt) < r2(rtt) && old(gradMin(l).value) != 0.0 && float64(r1(rtt)) >= old(gradMin(l).value) && !gradProbed(l, old(l.resetRTTCounter)) ==> r2(l.estimatedLimit) <= r1(l.estimatedLimit)
-//@   requires sample: 0 <= rtt && rtt <= 4611686018427387904 && 0 <= inFlight && inFlight < 1<<31
+//@   requires sample: 0 <= rtt && 0 <= inFlight
+//@   requires magnitude_no_overflow: rtt <= 4611686018427387904 && inFlight < 1<<31
 //@   maintains[C04,C06,C07,C08,C15] l
 //@   ensures[C06] drop_never_raises: didDrop ==> l.estimatedLimit <= old(l.estimatedLimit)
 //@   ensures[C06] drop_rule: didDrop && !gradProbed(l, old(l.resetRTTCounter)) ==> l.estimatedLimit == max(float64(gradQueue(l, old(l.estimatedLimit))), min(float64(l.maxLimit), max(float64(l.minLimit), old(l.estimatedLimit) * (1.0 - l.smoothing) + l.smoothing * (old(l.estimatedLimit) / 2.0))))
@@ -325,6 +334,7 @@ package limit
 //@   ensures[C04,C07] value: result == 4
 
 //@ func (*Gradient2Limit).EstimatedLimit
+//@   refines[C04] core.Limit.EstimatedLimit with est = int(l.estimatedLimit)
 //@   maintains[C04] l
 //@   ensures[C04,C16] value: result == int(l.estimatedLimit) && result >= 1 && result >= l.minLimit
 //@   assigns nothing
@@ -345,9 +355,11 @@ package limit
 //@   owns[C17]
 
 //@ func (*Gradient2Limit).OnSample
+//@   refines[C04] core.Limit.OnSample with est = int(l.estimatedLimit)
 //@   relational[C08] rtt_monotone_warmup varies rtt: r1(rtt) < r2(rtt) && old(g2Long(l).count) < g2Long(l).warmupWindow ==> r2(l.estimatedLimit) <= r1(l.estimatedLimit)
 //@   relational[C08] rtt_monotone_steady varies rtt: r1(rtt) < r2(rtt) && old(g2Long(l).count) >= g2Long(l).warmupWindow ==> r2(l.estimatedLimit) <= r1(l.estimatedLimit)
-//@   requires sample: 0 <= rtt && rtt <= 4611686018427387904 && 0 <= inFlight && inFlight < 1<<31
+//@   requires sample: 0 <= rtt && 0 <= inFlight
+//@   requires magnitude_no_overflow: rtt <= 4611686018427387904 && inFlight < 1<<31
 //@   maintains[C04,C07,C08] l
 //@   ensures[C07] gate: float64(inFlight) < old(l.estimatedLimit) / 2.0 ==> l.estimatedLimit == old(l.estimatedLimit)
 //@   ensures[C07,C08] update_rule: float64(inFlight) >= old(l.estimatedLimit) / 2.0 ==> l.estimatedLimit == max(float64(l.minLimit), min(float64(l.maxLimit), old(l.estimatedLimit) * (1.0 - l.smoothing) + (old(l.estimatedLimit) * g2Gradient(float64(rtt), g2LongAfterAdd(l, float64(rtt))) + float64(g2Queue(l, old(l.estimatedLimit)))) * l.smoothing))
@@ -386,6 +398,7 @@ package limit
 //@   assigns nothing
 
 //@ func (*WindowedLimit).EstimatedLimit
+//@   refines[C04] core.Limit.EstimatedLimit with est = l.delegate.est
 //@   ensures[C04,C16] delegates: result == l.delegate.est
 //@   assigns nothing
 //@   owns[C17]
@@ -396,7 +409,9 @@ package limit
 //@   owns[C17]
 
 //@ func (*WindowedLimit).OnSample
-//@   requires sample: 0 <= rtt && rtt <= 1<<40 && 0 <= inFlight && inFlight < 1<<31 && 0 <= startTime && startTime <= 1<<61
+//@   refines[C04] core.Limit.OnSample with est = l.delegate.est
+//@   requires sample: 0 <= rtt && 0 <= inFlight
+//@   requires magnitude_no_overflow: rtt <= 1<<40 && inFlight < 1<<31 && 0 <= startTime && startTime <= 1<<61
 //@   requires counters_no_overflow: l.sample.sum <= 1<<61 && l.sample.sampleCount <= 1<<40
 //@   maintains[C04,C09] l
 //@   ensures[C09] fast_leaves_no_trace: rtt < l.minRTTThreshold ==> l.sample == old(l.sample) && l.nextUpdateTime == old(l.nextUpdateTime) && ncalls("core.Limit.OnSample") == 0
@@ -422,6 +437,7 @@ package limit
 //@   inv deps: this.limit != nil && this.logger != nil
 
 //@ func (*TracedLimit).EstimatedLimit
+//@   refines[C04] core.Limit.EstimatedLimit with est = l.limit.est
 //@   maintains l
 //@   ensures[C04,C16] delegates: result == l.limit.est
 //@   ensures[C16] one_read: ncallsOn(l.limit, "core.Limit.EstimatedLimit") == 1
@@ -431,6 +447,7 @@ package limit
 //@   ensures[C16] registered_with_delegate: ncallsOn(l.limit, "core.Limit.NotifyOnChange") == 1 && callarg("core.Limit.NotifyOnChange", 0, 0) == consumer
 
 //@ func (*TracedLimit).OnSample
+//@   refines[C04] core.Limit.OnSample with est = l.limit.est
 //@   requires sample: 0 <= rtt && 0 <= inFlight
 //@   maintains l
 //@   ensures[C04,C16] forwards_unchanged: ncalls("core.Limit.OnSample") == 1 && callrecv("core.Limit.OnSample", 0) == l.limit && callarg("core.Limit.OnSample", 0, 0) == startTime && callarg("core.Limit.OnSample", 0, 1) == rtt && callarg("core.Limit.OnSample", 0, 2) == inFlight && callarg("core.Limit.OnSample", 0, 3) == didDrop
@@ -444,6 +461,7 @@ package limit
 //@   immutable: commonSampler
 
 //@ func (*SettableLimit).EstimatedLimit
+//@   refines[C16] core.Limit.EstimatedLimit with est = int(l.limit)
 //@   ensures[C16] value: result == int(l.limit)
 //@   assigns nothing
 //@   owns[C17]
@@ -468,6 +486,7 @@ package limit
 //@   owns[C17]
 
 //@ func (*SettableLimit).OnSample
+//@   refines[C16] core.Limit.OnSample with est = int(l.limit)
 //@   ensures[C16] unchanged: l.limit == old(l.limit)
 //@   ensures[C20] sampled_once: ncalls("(*core.CommonMetricSampler).Sample") == 1 && callarg("(*core.CommonMetricSampler).Sample", 0, 0) == rtt && callarg("(*core.CommonMetricSampler).Sample", 0, 1) == inFlight && callarg("(*core.CommonMetricSampler).Sample", 0, 2) == didDrop
 //@   assigns nothing
@@ -480,10 +499,12 @@ package limit
 //@   ensures[C19] value: result != nil && result.limit == ite(limit < 0, 10, limit)
 
 //@ func (*FixedLimit).EstimatedLimit
+//@   refines[C19] core.Limit.EstimatedLimit with est = l.limit
 //@   ensures[C16,C19] constant: result == l.limit
 //@   assigns nothing
 
 //@ func (*FixedLimit).OnSample
+//@   refines[C19] core.Limit.OnSample with est = l.limit
 //@   ensures[C16,C19] unchanged: l.limit == old(l.limit)
 //@   ensures[C20] sampled_once: ncalls("(*core.CommonMetricSampler).Sample") == 1 && callarg("(*core.CommonMetricSampler).Sample", 0, 0) == rtt && callarg("(*core.CommonMetricSampler).Sample", 0, 1) == inFlight && callarg("(*core.CommonMetricSampler).Sample", 0, 2) == didDrop
 //@   assigns nothing
